@@ -14,6 +14,7 @@ bor = Function('bor', I, I, I)
 bnot = Function('bnot', I, I)
 shr = Function('shr', I, I, I)
 tz = Function('tz', I, I)          # index of the lowest set bit, for x != 0
+atomv = Function('atomv', I, I)    # 1 << i  (the atom 2^i), for i >= 0
 
 
 def axioms():
@@ -49,6 +50,8 @@ def axioms():
     A('B8b', [x, y], (bor(x, y) >= 0) == And(x >= 0, y >= 0), [bor(x, y)])
     A('B8c', [x], (bnot(x) >= 0) == (x < 0), [bnot(x)])
     A('B8d', [x, y], Implies(And(x >= 0, y >= 0), And(band(x, y) <= x, band(x, y) <= y)), [band(x, y)])
+    A('B11a', [x, k], Implies(x >= 0, bit(atomv(x), k) == (k == x)), [bit(atomv(x), k)])
+    A('B11b', [x], Implies(x >= 0, atomv(x) > 0), [atomv(x)])
     return ax
 
 
@@ -81,6 +84,8 @@ def selftest_axioms(lim=40, kmax=9):
         if x != 0:
             t = c_tz(x)
             assert t >= 0 and c_bit(x, t) and all(not c_bit(x, k) for k in range(-2, t))
+        if x >= 0 and x < 12:
+            assert (1 << x) > 0 and all(c_bit(1 << x, k) == (k == x) for k in range(-2, 14))
         for k in K:
             if k < 0:
                 assert not c_bit(x, k)
